@@ -33,8 +33,8 @@ func (Engine) Info(prop string) core.Info {
 		Real:         []string{"transport/telnet (Dial, DialTimeout, DialContext, Dialer.DialURL/DialURLContext, Listen, Accept, Conn)", "transport (ParseURL, DialURL, DialURLContext, dialer registry)"},
 		Stub:         []string{"clock (testing/synctest)", "TCP network (net import swapped for sim/shim/net -> sim/simnet + sim/pipe)", "scripted telnet server and client models", "applications on both ends (readers/writers)"},
 		Assumptions:  []string{"library runs on the Go 1.26.8 standard library, not 1.24.0", "goroutine choice between two environment events is the Go runtime's at GOMAXPROCS=1", "a dial_timeout URL parameter overrides the Dialer's own Timeout (as dial.go documents by construction)", "the simulated net.Dialer honours its context during connect (as the real one does)"},
-		QuickRuns:    40000,
-		ThoroughRuns: 1200000,
+		QuickRuns:    80000,
+		ThoroughRuns: 1000000,
 		WatchdogSec:  120,
 		// the deadline clause is decided on the simulated clock; a wall-clock hang
 		// would be a spin inside Dial/Accept, which the property also excludes
